@@ -69,6 +69,11 @@ Inductive obj := OPath (p : ptok) | OText (id : Z) | OImage (id : Z) (wpx hpx : 
 
 Inductive csys := CartI | CartII | CartIII | CartIV.
 
+(** Every matrix the model stores or hands on is normalised entry-wise with [Qred] (x == Qred x): Q's arithmetic
+    does not reduce fractions and a history of 60 products would otherwise square the denominators 60 times.
+    This changes representations only; all statements about matrices are up to [meq]. *)
+Definition mnorm (m : mat) : mat := mkM (Qred (ma m)) (Qred (mb m)) (Qred (mc m)) (Qred (md m)) (Qred (me m)) (Qred (mf m)).
+
 (** * State *)
 
 (** ContextState: Style, view, coordView, coordSystem *)
@@ -134,7 +139,7 @@ Definition flipsX (s : csys) : bool := match s with CartII | CartIII => true | _
 (** c.CoordSystemView().Mul(c.view).Translate(coord.X, coord.Y) with coord = c.coordView.Dot(x,y) *)
 Definition base_matrix (W H : Q) (s : cstate) (x y : Q) : mat :=
   let coord := mdot (ccoord s) (x, y) in
-  mtranslate (mmul (csv W H (csysm s)) (cview s)) (fst coord) (snd coord).
+  mnorm (mtranslate (mmul (csv W H (csysm s)) (cview s)) (fst coord) (snd coord)).
 
 (** the matrix each view call post-multiplies onto c.view (built from Identity as in canvas.go:338-395) *)
 Definition view_op_matrix (o : op) : option mat :=
@@ -156,34 +161,31 @@ Definition view_op_matrix (o : op) : option mat :=
 
 (** * DrawPath (canvas.go:635-667) *)
 
-(** the loop over paths: [st] is the local [style] (its Stroke is cleared for good once a path's checkDash
-    says "no stroke"; its Dashes/DashOffset are overwritten per path), [off]/[dashes] are c.Style.DashOffset and
-    the dash array read before the loop *)
-Fixpoint draw_paths_loop (m : mat) (off : Q) (dashes : list Q) (st : style) (ps : list pathin) : list rop :=
-  match ps with
-  | [] => []
-  | p :: tl =>
-      let '(o', d', ok) := check_dash (pi_len p) off dashes in
-      let st1 := set_dashes st o' d' in
-      let st2 := if ok then st1 else set_stroke st1 paint_none in
-      mkRop (OPath (pi_tok p)) st2 m (pi_bounds p) :: draw_paths_loop m off dashes st2 tl
-  end.
+(** the loop over paths: every path starts from the context's style [st]; checkDash (with c.Style.DashOffset and
+    c.Style.Dashes) decides the dash offset / array handed on and whether the stroke is kept *)
+Definition path_style (st : style) (p : pathin) : style :=
+  let '(o', d', ok) := check_dash (pi_len p) (sdoff st) (sdashes st) in
+  let st1 := set_dashes st o' d' in
+  if ok then st1 else set_stroke st1 paint_none.
+
+Definition draw_paths_loop (m : mat) (st : style) (ps : list pathin) : list rop :=
+  map (fun p => mkRop (OPath (pi_tok p)) (path_style st p) m (pi_bounds p)) ps.
 
 Definition draw_path (W H : Q) (s : cstate) (x y : Q) (ps : list pathin) : list rop :=
   if negb (has_fill (cst s)) && negb (has_stroke (cst s)) then []
-  else draw_paths_loop (base_matrix W H s x y) (sdoff (cst s)) (sdashes (cst s)) (cst s) ps.
+  else draw_paths_loop (base_matrix W H s x y) (cst s) ps.
 
 (** DrawText (canvas.go:670-687) *)
 Definition text_matrix (W H : Q) (s : cstate) (x y : Q) : mat :=
   let m := base_matrix W H s x y in
   let m := if flipsY (csysm s) then mreflecty m else m in
-  if flipsX (csysm s) then mreflectx m else m.
+  mnorm (if flipsX (csysm s) then mreflectx m else m).
 
 (** DrawImage (canvas.go:690-710) *)
 Definition image_matrix (W H : Q) (s : cstate) (x y : Q) (wpx hpx : Z) (res : Q) : mat :=
   let m := mscale (base_matrix W H s x y) (1 / res) (1 / res) in
   let m := if flipsY (csysm s) then mreflecty_about m (inject_Z hpx / 2) else m in
-  if flipsX (csysm s) then mreflectx_about m (inject_Z wpx / 2) else m.
+  mnorm (if flipsX (csysm s) then mreflectx_about m (inject_Z wpx / 2) else m).
 
 (** * step: new context, what is handed to the renderer (in order), and the z-index forwarded (if any).
     W, H are what Renderer.Size() returns at the time of the call. *)
@@ -214,7 +216,7 @@ Definition ctx_step (W H : Q) (c : ctx) (o : op) : ctx * list rop :=
            end
   | SetCoordSystem cs => (with_sys c cs, [])
   | SetCoordView m => (with_coord c m, [])
-  | SetCoordRect r w h => (with_coord c (mscale (mtranslate mid (rx0 r) (ry0 r)) (rW r / w) (rH r / h)), [])
+  | SetCoordRect r w h => (with_coord c (mnorm (mscale (mtranslate mid (rx0 r) (ry0 r)) (rW r / w) (rH r / h))), [])
   | SetZIndex _ => (c, [])
   | PathCmd t => (with_path c (cpath c ++ [t]), [])
   | Fill len b =>
@@ -230,7 +232,7 @@ Definition ctx_step (W H : Q) (c : ctx) (o : op) : ctx * list rop :=
           else [mkRop (OImage id wpx hpx) default_style (image_matrix W H s x y wpx hpx res)
                       (mkR 0 0 (inject_Z wpx) (inject_Z hpx))])
   | _ => match view_op_matrix o with
-         | Some q => (with_view c (mmul (cview s) q), [])
+         | Some q => (with_view c (mnorm (mmul (cview s) q)), [])
          | None => (c, [])
          end
   end.
